@@ -30,7 +30,7 @@ def sig_of(ev):
     return "C03:framing-or-option-effect:%s" % op
 
 
-def run(ctx):
+def _run_main(ctx):
     thorough = ctx.tier == "thorough"
     ctx.rule = ("session = {1.0,1.1} x self-closing x header x 2-6 operations from 17 kinds with 11 argument kinds (ASCII, multi-byte, 5 kB, attributes, namespaces, empty elements, comment/CDATA/PI "
                 "before a closing tag, white-space-only, mixed content); every request is one validated trace event; non-trivial = every request; distinct by session id x position")
@@ -70,3 +70,19 @@ def run(ctx):
         ctx.sample({"session": json.loads(lines[0]), "first_request": ev})
     validate_traces(ctx, "NcRequestTrace", lines, "C03:trace-rejected", "recorded NETCONF session", dfs=False, maxrej=8, sigfn=sig_of)
     ctx.notes["requests_validated"] = nreq
+
+
+OPOPT_FIELDS = {"netconf.Filter", "netconf.FilterType", "netconf.DefaultType", "netconf.CommitConfirmed", "netconf.CommitConfirmTimeout", "netconf.CommitConfirmedPersist", "netconf.CommitConfirmedPersistID"}   # the operation options this property relies on (OpOptions.tla; every other option is noise in any position)
+
+
+def run(ctx):
+    import json as _json
+    import opopts
+    if ctx.replay:
+        rp = _json.load(open(ctx.replay))["scenario"]
+        if rp.get("kind") == "opopts":
+            opopts.replay(ctx, "C03", OPOPT_FIELDS, rp)
+            return
+    _run_main(ctx)
+    if not ctx.replay:
+        opopts.stage(ctx, "C03", OPOPT_FIELDS, ctx.tier == "thorough")
